@@ -353,6 +353,8 @@ def run(ctx):
     ctx.rule("R01.n", "the comparison helper does not move the value: _to_datetime, interpreted abstractly on a datetime / a plain date / something else, returns a datetime and anything else "
                       "unchanged (the very object) and converts only plain dates (R01.f compares bounds through it and assumes it preserves order)", floor=1)
     ctx.rule("R01.g", "every _validate_value override below Tuple checks isinstance(val, tuple) (itself or via super) before iterating the value", floor=3)
+    ctx.rule("R01.u", "update model: Parameters._update interpreted abstractly (entry flag x key orders x rejected / unknown key x a key given the value it already holds): every key given "
+                      "reaches the validating setter, so update(...) accepts exactly what an assignment accepts", floor=1)
     ctx.rule("R01.m", "setter model: Parameter.__set__ interpreted abstractly on every combination (576) of route x constant/readonly x validation outcome x identity x reference mode x watchers x batching agrees with the specification of this property (see checks/setter_model.py)", floor=1)
     ctx.not_decided += ["semantics of re.match / isinstance / `in` (trusted library operations: only that they are consulted is checked)",
                         "Selector membership under concurrent mutation of objects", "accept-iff-spec for value *types* (bool vs int, date vs datetime)"]
@@ -409,3 +411,5 @@ def run(ctx):
     # model-level rule, run last (see DESIGN §10)
     from checks import setter_model
     setter_model.report(ctx, "C01", "R01.m")
+    from checks import update_model
+    update_model.report(ctx, "C01", "R01.u")
